@@ -899,6 +899,12 @@ class Machine(object):
         if d == "std::iter::IntoIterator::into_iter" or d.endswith("::iter") or d.endswith("::iter_mut"):
             a = deref_val(args[0])
             return finish(Opaque(("iter", lab(a))))
+        if d == "std::ops::Try::branch" or d == "std::ops::FromResidual::from_residual" or d == "std::ops::Try::from_output":
+            r = self.try_model(d.rsplit("::", 1)[1], name, args)
+            if r is not None:
+                return finish(r)
+            # undecided: pure opaque value (its variant is forked on when it is matched)
+            return finish(Opaque(("call", name, tuple(lab(a) for a in args)), t["dest"]["ty"]))
         if d in ADAPTORS:
             kind = ADAPTORS[d]
             fields = {0: Cell(args[0])}
@@ -1080,6 +1086,51 @@ class Machine(object):
         if d["mode"] == "for_each":
             return Const("unit", None)
         return AdtVal("std::ops::ControlFlow", 0, {0: Cell(Const("unit", None))}, None, "Continue")
+
+    def try_model(self, what, name, args):
+        a = args[0]
+        CF = "std::ops::ControlFlow"
+        if what == "from_output":
+            if "ControlFlow" in name:
+                return AdtVal(CF, 0, {0: Cell(a)}, None, "Continue")
+            if "Option" in name:
+                return AdtVal("std::option::Option", 1, {0: Cell(a)}, None, "Some")
+            if "Result" in name:
+                return AdtVal("std::result::Result", 0, {0: Cell(a)}, None, "Ok")
+            return None
+        if what == "from_residual" and not (isinstance(a, AdtVal) and a.variant is not None):
+            # a residual can only be the failure variant (ControlFlow<B, Infallible>, Option<Infallible>, Result<Infallible, E>)
+            if "ControlFlow" in name:
+                return AdtVal(CF, 1, {0: Cell(Opaque(join_label(lab(a), "Break.0")))}, None, "Break")
+            if "Option" in name:
+                return AdtVal("std::option::Option", 0, {}, None, "None")
+            if "Result" in name:
+                return AdtVal("std::result::Result", 1, {0: Cell(Opaque(("from", join_label(lab(a), "Err.0"))))}, None, "Err")
+            return None
+        if not (isinstance(a, AdtVal) and a.variant is not None):
+            return None
+        if what == "branch":
+            if "ControlFlow" in name:
+                if a.vname == "Continue":
+                    return AdtVal(CF, 0, {0: Cell(self.field_cell(a, 0, None, None).val)}, None, "Continue")
+                return AdtVal(CF, 1, {0: Cell(AdtVal(CF, 1, {0: Cell(self.field_cell(a, 0, None, None).val)}, None, "Break"))}, None, "Break")
+            if "Option" in name:
+                if a.vname == "Some":
+                    return AdtVal(CF, 0, {0: Cell(self.field_cell(a, 0, None, None).val)}, None, "Continue")
+                return AdtVal(CF, 1, {0: Cell(AdtVal("std::option::Option", 0, {}, None, "None"))}, None, "Break")
+            if "Result" in name:
+                if a.vname == "Ok":
+                    return AdtVal(CF, 0, {0: Cell(self.field_cell(a, 0, None, None).val)}, None, "Continue")
+                return AdtVal(CF, 1, {0: Cell(AdtVal("std::result::Result", 1, {0: Cell(self.field_cell(a, 0, None, None).val)}, None, "Err"))}, None, "Break")
+            return None
+        if what == "from_residual":
+            if "ControlFlow" in name and a.vname == "Break":
+                return AdtVal(CF, 1, {0: Cell(self.field_cell(a, 0, None, None).val)}, None, "Break")
+            if "Option" in name and a.vname == "None":
+                return AdtVal("std::option::Option", 0, {}, None, "None")
+            if "Result" in name and a.vname == "Err":
+                return AdtVal("std::result::Result", 1, {0: Cell(Opaque(("from", lab(self.field_cell(a, 0, None, None).val))))}, None, "Err")
+        return None
 
     def bump(self, ref):
         if isinstance(ref, Ref):
